@@ -112,7 +112,7 @@ inst!(disp_g1_1_5, [props=C09+C01+C02+C07 xprops=C14 tier=quick cfg=x86std t=180
 inst!(disp_g1_7_15, [props=C09+C01+C02+C07 xprops=C14 tier=quick cfg=x86std t=1800 role=dispatcher-symbolic-cpu uw=byte_by_byte:34;all::memchr::One::count_raw.0:67;all::memchr:10;find_raw.0:3;find_raw.1:4;count_raw.0:3;count_raw.1:4], 17,
     x86::dispatcher::<7, 15>(1));
 #[cfg(any(vcfg_x86std, vcfg_x86none, vcfg_x86alloc, vcfg_x86avx2, vcfg_x86rel))]
-inst!(disp_g1_16_17, [props=C09+C01+C02+C07 xprops=C14 tier=quick cfg=x86std t=1800 role=dispatcher-symbolic-cpu uw=byte_by_byte:34;all::memchr::One::count_raw.0:67;all::memchr:10;find_raw.0:3;find_raw.1:4;count_raw.0:3;count_raw.1:4], 19,
+inst!(disp_g1_16_17, [props=C09+C01+C02+C07 xprops=C14 tier=thorough cfg=x86std t=1800 role=dispatcher-symbolic-cpu uw=byte_by_byte:34;all::memchr::One::count_raw.0:67;all::memchr:10;find_raw.0:3;find_raw.1:4;count_raw.0:3;count_raw.1:4], 19,
     x86::dispatcher::<16, 17>(1));
 #[cfg(any(vcfg_x86std, vcfg_x86none, vcfg_x86alloc, vcfg_x86avx2, vcfg_x86rel))]
 inst!(disp_g1_31_32, [props=C09+C01+C02+C07 xprops=C14 tier=thorough cfg=x86std t=1800 role=dispatcher-symbolic-cpu uw=byte_by_byte:34;all::memchr::One::count_raw.0:67;all::memchr:10;find_raw.0:3;find_raw.1:4;count_raw.0:3;count_raw.1:4], 34,
@@ -154,7 +154,7 @@ inst!(disp_g2_1_5, [props=C09+C01+C02 xprops=C14 tier=quick cfg=x86std t=1800 ro
 inst!(disp_g2_7_15, [props=C09+C01+C02 xprops=C14 tier=quick cfg=x86std t=1800 role=dispatcher-symbolic-cpu uw=byte_by_byte:34;all::memchr::One::count_raw.0:67;all::memchr:10;find_raw.0:3;find_raw.1:4;count_raw.0:3;count_raw.1:4], 3,
     x86::dispatcher::<7, 15>(2));
 #[cfg(any(vcfg_x86std, vcfg_x86none, vcfg_x86alloc, vcfg_x86avx2, vcfg_x86rel))]
-inst!(disp_g2_16_17, [props=C09+C01+C02 xprops=C14 tier=quick cfg=x86std t=1800 role=dispatcher-symbolic-cpu uw=byte_by_byte:34;all::memchr::One::count_raw.0:67;all::memchr:10;find_raw.0:3;find_raw.1:4;count_raw.0:3;count_raw.1:4], 3,
+inst!(disp_g2_16_17, [props=C09+C01+C02 xprops=C14 tier=thorough cfg=x86std t=1800 role=dispatcher-symbolic-cpu uw=byte_by_byte:34;all::memchr::One::count_raw.0:67;all::memchr:10;find_raw.0:3;find_raw.1:4;count_raw.0:3;count_raw.1:4], 3,
     x86::dispatcher::<16, 17>(2));
 #[cfg(any(vcfg_x86std, vcfg_x86none, vcfg_x86alloc, vcfg_x86avx2, vcfg_x86rel))]
 inst!(disp_g2_31_32, [props=C09+C01+C02 xprops=C14 tier=thorough cfg=x86std t=1800 role=dispatcher-symbolic-cpu uw=byte_by_byte:34;all::memchr::One::count_raw.0:67;all::memchr:10;find_raw.0:3;find_raw.1:4;count_raw.0:3;count_raw.1:4], 3,
@@ -196,7 +196,7 @@ inst!(disp_g3_1_5, [props=C09+C01+C02 xprops=C14 tier=quick cfg=x86std t=1800 ro
 inst!(disp_g3_7_15, [props=C09+C01+C02 xprops=C14 tier=quick cfg=x86std t=1800 role=dispatcher-symbolic-cpu uw=byte_by_byte:34;all::memchr::One::count_raw.0:67;all::memchr:10;find_raw.0:3;find_raw.1:4;count_raw.0:3;count_raw.1:4], 3,
     x86::dispatcher::<7, 15>(3));
 #[cfg(any(vcfg_x86std, vcfg_x86none, vcfg_x86alloc, vcfg_x86avx2, vcfg_x86rel))]
-inst!(disp_g3_16_17, [props=C09+C01+C02 xprops=C14 tier=quick cfg=x86std t=1800 role=dispatcher-symbolic-cpu uw=byte_by_byte:34;all::memchr::One::count_raw.0:67;all::memchr:10;find_raw.0:3;find_raw.1:4;count_raw.0:3;count_raw.1:4], 3,
+inst!(disp_g3_16_17, [props=C09+C01+C02 xprops=C14 tier=thorough cfg=x86std t=1800 role=dispatcher-symbolic-cpu uw=byte_by_byte:34;all::memchr::One::count_raw.0:67;all::memchr:10;find_raw.0:3;find_raw.1:4;count_raw.0:3;count_raw.1:4], 3,
     x86::dispatcher::<16, 17>(3));
 #[cfg(any(vcfg_x86std, vcfg_x86none, vcfg_x86alloc, vcfg_x86avx2, vcfg_x86rel))]
 inst!(disp_g3_31_32, [props=C09+C01+C02 xprops=C14 tier=thorough cfg=x86std t=1800 role=dispatcher-symbolic-cpu uw=byte_by_byte:34;all::memchr::One::count_raw.0:67;all::memchr:10;find_raw.0:3;find_raw.1:4;count_raw.0:3;count_raw.1:4], 3,
@@ -235,7 +235,7 @@ inst!(disp_g3_64_65, [props=C09+C01+C02 xprops=C14 tier=thorough cfg=x86std t=18
 inst!(diff_g1_12, [props=C09 xprops=C14 tier=quick cfg=x86std t=1800 role=backend-differential uw=byte_by_byte:34;all::memchr::One::count_raw.0:67;all::memchr:10;find_raw.0:3;find_raw.1:4;count_raw.0:3;count_raw.1:4], 3,
     x86::differential::<12>(1));
 #[cfg(any(vcfg_x86std, vcfg_x86none, vcfg_x86alloc, vcfg_x86avx2, vcfg_x86rel))]
-inst!(diff_g1_18, [props=C09 xprops=C14 tier=quick cfg=x86std t=1800 role=backend-differential uw=byte_by_byte:34;all::memchr::One::count_raw.0:67;all::memchr:10;find_raw.0:3;find_raw.1:4;count_raw.0:3;count_raw.1:4], 3,
+inst!(diff_g1_18, [props=C09 xprops=C14 tier=thorough cfg=x86std t=1800 role=backend-differential uw=byte_by_byte:34;all::memchr::One::count_raw.0:67;all::memchr:10;find_raw.0:3;find_raw.1:4;count_raw.0:3;count_raw.1:4], 3,
     x86::differential::<18>(1));
 #[cfg(any(vcfg_x86std, vcfg_x86none, vcfg_x86alloc, vcfg_x86avx2, vcfg_x86rel))]
 inst!(diff_g1_34, [props=C09 xprops=C14 tier=thorough cfg=x86std t=1800 role=backend-differential uw=byte_by_byte:34;all::memchr::One::count_raw.0:67;all::memchr:10;find_raw.0:3;find_raw.1:4;count_raw.0:3;count_raw.1:4], 3,
@@ -277,7 +277,7 @@ inst!(diff_g1_65, [props=C09 xprops=C14 tier=thorough cfg=x86std t=1800 role=bac
 inst!(diff_g2_12, [props=C09 xprops=C14 tier=quick cfg=x86std t=1800 role=backend-differential uw=byte_by_byte:34;all::memchr::One::count_raw.0:67;all::memchr:10;find_raw.0:3;find_raw.1:4;count_raw.0:3;count_raw.1:4], 3,
     x86::differential::<12>(2));
 #[cfg(any(vcfg_x86std, vcfg_x86none, vcfg_x86alloc, vcfg_x86avx2, vcfg_x86rel))]
-inst!(diff_g2_18, [props=C09 xprops=C14 tier=quick cfg=x86std t=1800 role=backend-differential uw=byte_by_byte:34;all::memchr::One::count_raw.0:67;all::memchr:10;find_raw.0:3;find_raw.1:4;count_raw.0:3;count_raw.1:4], 3,
+inst!(diff_g2_18, [props=C09 xprops=C14 tier=thorough cfg=x86std t=1800 role=backend-differential uw=byte_by_byte:34;all::memchr::One::count_raw.0:67;all::memchr:10;find_raw.0:3;find_raw.1:4;count_raw.0:3;count_raw.1:4], 3,
     x86::differential::<18>(2));
 #[cfg(any(vcfg_x86std, vcfg_x86none, vcfg_x86alloc, vcfg_x86avx2, vcfg_x86rel))]
 inst!(diff_g2_34, [props=C09 xprops=C14 tier=thorough cfg=x86std t=1800 role=backend-differential uw=byte_by_byte:34;all::memchr::One::count_raw.0:67;all::memchr:10;find_raw.0:3;find_raw.1:4;count_raw.0:3;count_raw.1:4], 3,
@@ -319,7 +319,7 @@ inst!(diff_g2_65, [props=C09 xprops=C14 tier=thorough cfg=x86std t=1800 role=bac
 inst!(diff_g3_12, [props=C09 xprops=C14 tier=quick cfg=x86std t=1800 role=backend-differential uw=byte_by_byte:34;all::memchr::One::count_raw.0:67;all::memchr:10;find_raw.0:3;find_raw.1:4;count_raw.0:3;count_raw.1:4], 3,
     x86::differential::<12>(3));
 #[cfg(any(vcfg_x86std, vcfg_x86none, vcfg_x86alloc, vcfg_x86avx2, vcfg_x86rel))]
-inst!(diff_g3_18, [props=C09 xprops=C14 tier=quick cfg=x86std t=1800 role=backend-differential uw=byte_by_byte:34;all::memchr::One::count_raw.0:67;all::memchr:10;find_raw.0:3;find_raw.1:4;count_raw.0:3;count_raw.1:4], 3,
+inst!(diff_g3_18, [props=C09 xprops=C14 tier=thorough cfg=x86std t=1800 role=backend-differential uw=byte_by_byte:34;all::memchr::One::count_raw.0:67;all::memchr:10;find_raw.0:3;find_raw.1:4;count_raw.0:3;count_raw.1:4], 3,
     x86::differential::<18>(3));
 #[cfg(any(vcfg_x86std, vcfg_x86none, vcfg_x86alloc, vcfg_x86avx2, vcfg_x86rel))]
 inst!(diff_g3_34, [props=C09 xprops=C14 tier=thorough cfg=x86std t=1800 role=backend-differential uw=byte_by_byte:34;all::memchr::One::count_raw.0:67;all::memchr:10;find_raw.0:3;find_raw.1:4;count_raw.0:3;count_raw.1:4], 3,
@@ -403,8 +403,8 @@ pub mod matrix {
 inst!(mx_top_12, [props=C09 xprops=C14 tier=quick cfg=x86none+x86alloc+x86avx2 t=1800 role=config-matrix-bytes uw=byte_by_byte:34;all::memchr::One::count_raw.0:67;all::memchr:10;find_raw.0:3;find_raw.1:4;count_raw.0:3;count_raw.1:4;oracle::count:40], 3,
     matrix::top::<12>());
 #[cfg(any(vcfg_x86none, vcfg_x86alloc, vcfg_x86avx2))]
-inst!(mx_top_34, [props=C09 xprops=C14 tier=quick cfg=x86none+x86alloc+x86avx2 t=1800 role=config-matrix-bytes uw=byte_by_byte:34;all::memchr::One::count_raw.0:67;all::memchr:10;find_raw.0:3;find_raw.1:4;count_raw.0:3;count_raw.1:4;oracle::count:40], 3,
+inst!(mx_top_34, [props=C09 xprops=C14 tier=thorough cfg=x86none+x86alloc+x86avx2 t=1800 role=config-matrix-bytes uw=byte_by_byte:34;all::memchr::One::count_raw.0:67;all::memchr:10;find_raw.0:3;find_raw.1:4;count_raw.0:3;count_raw.1:4;oracle::count:40], 3,
     matrix::top::<34>());
 #[cfg(any(vcfg_x86none, vcfg_x86alloc, vcfg_x86avx2))]
 inst!(mx_sub_n2, [props=C09 xprops=C14 tier=quick cfg=x86none+x86alloc+x86avx2 t=1800 role=config-matrix-substring uw=@RK;@TWNEW;@TWOFF;with_ranker:6;oracle:6;@PP32], 3,
-    matrix::substring::<2, 10>(0, 10));
+    matrix::substring::<2, 8>(0, 8));
